@@ -187,3 +187,16 @@ package initializer
 //@        forall j :: 0 <= j && j < len(as($o, *admv1.ValidatingWebhookConfiguration).Webhooks) ==> as($o, *admv1.ValidatingWebhookConfiguration).Webhooks[j].ClientConfig.CABundle == caBundle
 //@   assert [C20:every-mutating-webhook-carries-the-current-ca-bundle] typeis($o, *admv1.MutatingWebhookConfiguration) ==>
 //@        forall j :: 0 <= j && j < len(as($o, *admv1.MutatingWebhookConfiguration).Webhooks) ==> as($o, *admv1.MutatingWebhookConfiguration).Webhooks[j].ClientConfig.CABundle == caBundle
+
+// C20 (the step loop): steps run in the given order against the initializer's client, no step
+// runs after one failed, and a failed step fails the initialisation.
+//@ func (*initializer.Initializer).Init
+//@ props C20
+//@ ghost failed bool = false
+//@ site (initializer.Step).Run(_, _, $k)
+//@   assert [C20:steps-use-the-initializers-client] $k == c.kube
+//@   assert [C20:no-step-runs-after-a-failed-one] !failed
+//@   update failed = err != nil
+//@ loop range c.steps
+//@   invariant [C20:no-failed-step-so-far] !failed
+//@ ensures [C20:a-failed-step-fails-the-initialisation] failed ==> err != nil
